@@ -148,7 +148,7 @@ def stream_layouts(ctx, res):
         res["evaluations"] += 1
         if isinstance(o, Err):
             refused += 1
-        if any(s is not None and any(x[1] != 2 for x in s) for s in l[:3]):
+        if any(s is not None and any(x is not None and x[1] != 2 for x in s) for s in l[:3]):
             res["nontrivial"].add(("layout-pct", repr(l), w, h))
         if ok != 1:
             res["violations"].append({
